@@ -1648,13 +1648,17 @@ def mkdofpv(uset, nasset, dof, *, strict=True, grids_only=True):
     dof = expanddof(dof, grids_only)
     _dof = dof[:, 0] * 10 + dof[:, 1]
 
-    i = np.argsort(uset_set)
-    pvi = np.searchsorted(uset_set, _dof, sorter=i)
-    # since searchsorted can return length as index:
-    pvi[pvi == i.size] -= 1
-    pv = i[pvi]
-
-    chk = uset_set[pv] != _dof
+    if uset_set.size > 0:
+        i = np.argsort(uset_set)
+        pvi = np.searchsorted(uset_set, _dof, sorter=i)
+        # since searchsorted can return length as index:
+        pvi[pvi == i.size] -= 1
+        pv = i[pvi]
+        chk = uset_set[pv] != _dof
+    else:
+        # empty set: every requested dof is missing
+        pv = np.zeros(_dof.size, np.int64)
+        chk = np.ones(_dof.size, bool)
     if chk.any():
         if strict:
             msg = (
